@@ -3,6 +3,7 @@ import Litep2pVerif.Generated.Consts
 import Litep2pVerif.Model.Bitswap.Prefix
 import Litep2pVerif.Model.Bitswap.Batch
 import Litep2pVerif.Model.Bitswap.Proto
+import Litep2pVerif.Model.Bitswap.Cmd
 /-! Line-protocol driver for the bitswap models (C20). The codec / batching operations are
 stateless; `pnew` starts a protocol-level session (`Model/Bitswap/Proto.lean`).
 
@@ -456,6 +457,21 @@ def protoStep (st : St) (held : Held) (ts : List String) : State × String :=
       | some es => protoOp (.command p (.response es)) "-"
       | none => bad
     | _, _ => bad
+  | ["burst", p, n, k] =>
+    -- `n` one-block responses (response `i` = block `b<1 + i/251>.<i%251>`) through the bounded command channel
+    match peer? p, n.toNat?, kind? k with
+    | some p, some n, some k =>
+      if n = 0 ∨ n > 6000 then bad
+      else
+        let cmds : List Cmd.Command := (List.range n).map fun i =>
+          (p, Action.response [.block ⟨k.1, k.2.1, 1 + i / 251, i % 251⟩])
+        let cap := Consts.BITSWAP_CMD_CHANNEL_SIZE
+        let r := Cmd.burst limits cap st cmds
+        let word := match Cmd.suspendedAt cap cmds with
+          | some j => s!"sus{j}"
+          | none => "ok"
+        (some (r.1, held), word ++ (showOut .ok r.2 "-" r.1).drop 2)
+    | _, _, _ => bad
   | ["req", p, k, cs] =>
     match peer? p, kind? k with
     | some p, some k => match listOf (want? k) cs with
@@ -507,7 +523,7 @@ def protoStep (st : St) (held : Held) (ts : List String) : State × String :=
   | _ => bad
 
 def protoWords : List String :=
-  ["conn", "disc", "conndead", "dialfail", "view", "subopen", "subfail", "plan", "resp", "req", "insub",
+  ["conn", "disc", "conndead", "dialfail", "view", "subopen", "subfail", "plan", "resp", "burst", "req", "insub",
    "inmsg", "inbad", "inbig", "inclose", "inreset", "inrest"]
 
 end ProtoOps
